@@ -4,6 +4,15 @@ import json, subprocess, sys
 
 # id -> (built?, level, technique, level text, level note, design ref)
 CHECKS = {
+ "C06": (True, "fault_enumeration", "reference-model monitor (interval containment) over the syn projection of real compiler output; exhaustive enumeration of the 53-point boundary pairs x marker x 9 contexts + seeded random unions/intersections/serial constraints",
+         "All (lower<=upper) pairs of the property's 53-point boundary set, with and without extension marker, are compiled in nine contexts and every emitted integer type token (resolved through delegate newtypes) must contain the permitted set and be arbitrary-precision when extensible or half-open; every integer literal of constants/DEFAULT functions must fit its declared or suffix type. Exhaustive for the stated space; random 2-operand combinations sampled.",
+         "Trusted: interval model harness/src/iv.rs (brute-force unit test), syn projection. For serial constraints only 'both carry a marker' is treated as extensible; other marker placements are judged on containment only (X.680 50.8-50.10 latitude).", "DESIGN.md §4 C06"),
+ "C08": (True, "exploration", "process-level monitor: worker processes (8 MiB main stack) run compile_to_string with both backends plus Display/contextualize of every error and warning; driver observes call/return events, exit status, terminating signal, panic hook and H3 linker step counters (hang decided on steps, wall-clock only inconclusive)",
+         "Held on the executions observed: every char-boundary prefix of the N smallest corpus modules (exhaustive), plus seeded soup / token mutation / snippet composition / deep nesting / open-at-EOF workloads; a panic, a signal death or a step-budget excess is a violation with the input as witness. Sampling, not proof: 'for all UTF-8 strings' is out of reach.",
+         "Trusted: OS process status, the panic hook, hook H3 counters. Exponential-time lexer backtracking on deeply nested syntax errors shows up as watchdog firings below the step budget and is reported as inconclusive, not as violation.", "DESIGN.md §4 C08"),
+ "C17": (True, "fault_enumeration", "fault injection with known token positions: every single-token corruption (insert/replace by a character that starts no ASN.1 token, delete, replace) of grammar-generated inputs; the reported offset/line/src_file and the three renderings (Display, contextualize, ReportData) are compared with positions known by construction",
+         "For every corrupted input that the real compiler rejects with a syntax error: offset within input and on a char boundary, line = 1 + line breaks before offset, offset not before the end of the preceding definition and not after the offending character (exact upper bound for garbage-character faults), Display line = contextualize marked line = contextualize header line = ReportData.line, src_file = the path iff given as file. Exhaustive over token positions for inputs within the per-input budget, sampled otherwise.",
+         "Trusted: own layout engine (token byte spans), fixed patterns for the message shapes. A blank/absent error line cannot carry the contextualize marker (it omits blank lines by design) and is not judged.", "DESIGN.md §4 C17"),
  "C14": (True, "fault_enumeration", "reference-model monitor (X.680 §20 numbering) over the syn projection of real compiler output; exhaustive enumeration of the property's finite space + seeded random",
          "Every enumeration of the property's finite space (<=5 root x <=3 additions over {-1,0,1,2,5,identifier-only}) is compiled by the real compiler and every emitted discriminant is compared with the X.680 20.3-20.6 number; larger random enumerations are sampled. Exhaustive for the stated space, sampled beyond it.",
          "Trusted: the 40-line numbering model in harness/src/c14.rs, syn's parsing of discriminants. Illegal inputs (duplicate numbers, non-ascending additions) are not claims.", "DESIGN.md §4 C14"),
